@@ -83,7 +83,8 @@ Section VerifySpecs.
 Variable sha256 ripemd160 sha1 : bytes -> bytes.
 Variable fl : Z.
 Variable ck : checker.
-Notation verify := (verify_script sha256 ripemd160 sha1 fl ck).
+Variable tap_commit : bytes -> bytes -> bytes -> bool.
+Notation verify := (verify_script sha256 ripemd160 sha1 fl ck tap_commit).
 Notation ev := (eval sha256 ripemd160 sha1 fl ck).
 
 Ltac walk H :=
